@@ -16,7 +16,9 @@ STATEMENT
   protocol, __reduce_ex__ and __getstate__ / __setstate__ give a list (set) with equal values (items) in the same order
   that shares no node (deepcopy / pickle: no mutable value either) with the original.  An OrderedSet is the sequence of
   its pairwise different items (different as dict keys) in order of first insertion, the first spelling kept;
-  order_first / order_last / order_before / order_after move exactly one item.  A _CaseInsensitiveString equals every
+  order_first / order_last / order_before / order_after move exactly one item; a key that cannot be hashed (unhashable,
+  or a __hash__ that raises -- also when it raises only in the table assignment of add()) is refused with that
+  exception and nothing changes.  A _CaseInsensitiveString equals every
   str with the same lower(), hashes like its lower(), str() returns the original spelling, lower() and
   default_field_sort_key the lower-case str, and it survives copy / deepcopy / pickle (protocol >= 2).
   Domain (the rest is unspecified, never generated): node-level mutators (node.remove, node.insert_before / _after,
@@ -76,6 +78,11 @@ API surface (notes/API_SURFACE.md)
   l.insert_before / insert_after (v, n) / keywords                     replay + trace
   l.insert_node_before / insert_node_after (new, n) / keywords         replay + trace (all refusals; finding X15-sole)
   l.extend(values) / values= / six iterable forms / raising iterable   replay + trace
+  LinkedList(raising iterable), OrderedSet(raising iterable),
+    OrderedSet.extend(raising iterable) (fault at the first / a middle
+    / the last step, then the history goes on: SIZE_STRESS part 5)     replay + trace (k = boom)
+  keys whose __hash__ raises the caller's exception at its first /
+    second call (add / remove / in / order_*: the roll-back of add)    replay + trace (items B1 B2)
   l.clear()                                                            replay + trace
   l.__getstate__() (result mutated) / __setstate__(list | tuple)       replay + trace
   copy.copy / deepcopy / pickle 0..5 (dumps, Pickler) / __reduce_ex__  replay + trace (lcopy ocopy spickle; finding X15-empick)
